@@ -141,22 +141,23 @@ theorem C04_unknown_ignored_block (env : Env) (N : Nat) (name : String) (fs : Li
     Partial w.r.t. `C04_unknown_ignored_full` in that (a) the known members' bytes are
     characterised by `HeadOk`/`SelfDelimiting` instead of being `encVar` of a well-typed value
     (what is missing is the C03 round trip per member, which yields both), and (b) two model
-    artefacts are hypotheses: the fuel `decFuel` of either run exceeds `N + #members` and the
-    struct-nesting depth of the target (`listDepth ovs`, 0 for a target without nested structs), so
-    that `ResetDefault` is not cut short by the fuel. -/
+    artefacts are hypotheses: the fuel `decFuel` of either run exceeds `N + #members`, and it is
+    large enough that `ResetDefault` is not cut short by it (`hstable`; `C04_resetDefault_stable`
+    discharges this from the struct-nesting depth of the target for schemas without fixed-size
+    arrays of structs). -/
 theorem C04_unknown_ignored_partial (env : Env) (N : Nat) (S : String) (fs : List Field)
     (ovs : List Val) (items : List (List WFField × Slot)) (tail : List WFField)
     (r r' : Reader) (t t' : Bytes)
     (hfind : env.find S = some fs) (hfs : fieldsOf items = fs)
     (holds : oldsOf items = resetDefault env (decFuel env r) fs ovs)
-    (hdep : listDepth ovs < decFuel env r) (hdep' : listDepth ovs < decFuel env r')
+    (hstable : resetDefault env (decFuel env r') fs ovs = resetDefault env (decFuel env r) fs ovs)
     (hadm : Admissible 0 items tail) (hsl : ∀ p ∈ items, p.2.HeadOk ∧ p.2.SelfDelimiting env N)
     (hF : N + items.length < decFuel env r) (hF' : N + items.length < decFuel env r')
     (ht : Terminated t) (ht' : Terminated t')
     (h : r.rest = merged items tail ++ t) (h' : r'.rest = merged (strip items) [] ++ t') :
     (decStruct env S (.struct ovs) r).1 = (decStruct env S (.struct ovs) r').1 :=
-  decStruct_unknown_ignored env N S fs ovs items tail r r' t t' hfind hfs holds
-    (resetDefault_fuel env _ _ fs ovs hdep' hdep) hadm hsl hF hF' ht ht' h h'
+  decStruct_unknown_ignored env N S fs ovs items tail r r' t t' hfind hfs holds hstable hadm hsl
+    hF hF' ht ht' h h'
 
 /-- **C04_unknown_ignored_enc_partial**: the same with the known members given as `encVar` of the
     members of a value (`encSlots`), compared against `encStruct` of that value: merging unknown
@@ -167,7 +168,7 @@ theorem C04_unknown_ignored_enc_partial (env : Env) (N : Nat) (S : String) (fs :
     (r r' : Reader) (t t' : Bytes)
     (hfind : env.find S = some fs) (hlo : ovs.length = fs.length) (hlv : vals.length = fs.length)
     (hlg : gaps.length = fs.length)
-    (hdep : listDepth ovs < decFuel env r) (hdep' : listDepth ovs < decFuel env r')
+    (hstable : resetDefault env (decFuel env r') fs ovs = resetDefault env (decFuel env r) fs ovs)
     (hadm : Admissible 0
       (gaps.zip (encSlots env fs (resetDefault env (decFuel env r) fs ovs) vals)) tail)
     (hsl : ∀ s ∈ encSlots env fs (resetDefault env (decFuel env r) fs ovs) vals,
@@ -178,8 +179,18 @@ theorem C04_unknown_ignored_enc_partial (env : Env) (N : Nat) (S : String) (fs :
       (gaps.zip (encSlots env fs (resetDefault env (decFuel env r) fs ovs) vals)) tail ++ t)
     (h' : r'.rest = encStruct env S (.struct vals) ++ t') :
     (decStruct env S (.struct ovs) r).1 = (decStruct env S (.struct ovs) r').1 :=
-  decStruct_unknown_ignored_enc env N S fs vals ovs gaps tail r r' t t' hfind hlo hlv hlg
-    (resetDefault_fuel env _ _ fs ovs hdep' hdep) hadm hsl hF hF' ht ht' h h'
+  decStruct_unknown_ignored_enc env N S fs vals ovs gaps tail r r' t t' hfind hlo hlv hlg hstable
+    hadm hsl hF hF' ht ht' h h'
+
+/-- **C04_resetDefault_stable**: the `hstable` hypothesis above holds whenever no struct of the
+    schema has a fixed-size array of structs as a member and both fuels exceed the struct-nesting
+    depth of the target (`listDepth ovs`; 0 for a target without nested struct members, and
+    `decFuel ≥ 6`). -/
+theorem C04_resetDefault_stable (env : Env) (hna : NoStructArrays env) (S : String) (fs : List Field)
+    (ovs : List Val) (F F' : Nat) (hfind : env.find S = some fs)
+    (hdep : listDepth ovs < F) (hdep' : listDepth ovs < F') :
+    resetDefault env F' fs ovs = resetDefault env F fs ovs :=
+  resetDefault_fuel env hna _ _ fs ovs (hna S fs hfind) hdep' hdep
 
 /-- full strength (stated, not proved here): for every schema, every well-typed value `vals`, every
     target `ovs`, every admissible interleaving with unknown well-formed fields, decoding the
@@ -241,12 +252,20 @@ example :
   have hf2 : decFuel C04_exEnv (Reader.mk0 (merged (strip C04_exItems) [])) = 19 + 1 := by decide
   have hr : ∀ x : Bytes, (Reader.mk0 x).rest = x ++ [] := by intro x; simp [Reader.rest, Reader.mk0]
   refine C04_unknown_ignored_partial C04_exEnv 1 "S" C04_exFs _ C04_exItems C04_exTail _ _ [] []
-    hfind rfl ?_ ?_ ?_ ?_ ?_ ?_ ?_ (.inl rfl) (.inl rfl) (hr _) (hr _)
+    hfind rfl ?_ ?_ ?_ ?_ ?_ ?_ (.inl rfl) (.inl rfl) (hr _) (hr _)
   · rw [hf1]
     simp [C04_exFs, resetDefault_cons, resetDefault_nil_left, resetMember, oldsOf, C04_exItems,
       zeroOf, zeroVal, scalarZero]
-  · rw [hf1]; simp [listDepth, valDepth]
-  · rw [hf2]; simp [listDepth, valDepth]
+  · refine C04_resetDefault_stable C04_exEnv ?_ "S" C04_exFs _ _ _ hfind ?_ ?_
+    · intro s ifs hs g hg
+      simp only [C04_exEnv, Env.find] at hs
+      split at hs
+      · cases hs
+        simp only [C04_exFs, List.mem_cons, List.mem_nil_iff, or_false] at hg
+        rcases hg with rfl | rfl <;> rfl
+      · cases hs
+    · rw [hf1]; simp [listDepth, valDepth]
+    · rw [hf2]; simp [listDepth, valDepth]
   · simp +decide [Admissible, C04_exItems, C04_exTail]
   · intro p hp
     simp only [C04_exItems, List.mem_cons, List.mem_nil_iff, or_false] at hp
@@ -268,10 +287,24 @@ theorem C04_absent_optional_member (env : Env) (F tag : Nat) (ty : Ty) (old : Va
     decVar env (F+1) tag false ty old r = (.ok (absentVal env F ty old), r) :=
   decVar_absent_opt env F tag ty old r hok h
 
+/-- the value an absent optional member that is not a struct decodes to (`defaultOf`,
+    Proofs/EvolveReset.lean), spelled out: the explicit IDL default; else, for a fixed-size array
+    of structs `S x[n]`, `n` copies of `S` after its own `ResetDefault`; else the Go zero value -/
+theorem C04_defaultOf (env : Env) (F : Nat) (f : Field) :
+    (∀ d, f.dflt = some d → defaultOf env F f = d) ∧
+    (f.dflt = none → isArrStructTy f.ty = false → defaultOf env F f = zeroOf env f.ty) ∧
+    (∀ n s ifs, f.dflt = none → f.ty = .arr n (.struct s) → env.find s = some ifs →
+      defaultOf env F f = .list (List.replicate n
+        (.struct (resetDefault env F ifs (ifs.map fun g => zeroOf env g.ty))))) :=
+  ⟨fun d h => defaultOf_dflt env F f d h, fun h h' => defaultOf_plain env F f h h',
+   fun n s ifs h h' h'' => defaultOf_arr env F f n s ifs h h' h''⟩
+
 /-- the reuse clause of the property at full strength: decoding (`ReadFrom`) into ANY target
     `ovs` — fresh or holding the values of an earlier packet — an optional member (not a struct)
-    that is absent when its turn comes decodes to its explicit IDL default, or to the Go zero value
-    of its type if it has none; the previous content `o` of the member is irrelevant.
+    that is absent when its turn comes decodes to `defaultOf` (`C04_defaultOf`: its explicit IDL
+    default, else `n` reset structs for an array of structs, else the Go zero value of its type);
+    the previous content `o` of the member is irrelevant.  (`decFuel env r - 1` is the model fuel
+    of the nested `ResetDefault` of array elements, immaterial otherwise.)
     (`hd`: an explicit default is a value of the member's type — schema well-formedness.) -/
 def C04_reuse_full : Prop :=
   ∀ (env : Env) (S : String) (fs : List Field) (ovs vs : List Val) (r r' : Reader) (i : Nat)
@@ -280,23 +313,31 @@ def C04_reuse_full : Prop :=
     fs[i]? = some f → ovs[i]? = some o → f.req = false → isStructTy f.ty = false →
     (∀ d, f.dflt = some d → targetOk env f.ty d = true) →
     After f.tag (readerBefore env S (.struct ovs) r i).rest →
-    vs[i]? = some (f.dflt.getD (zeroOf env f.ty))
+    vs[i]? = some (defaultOf env (decFuel env r - 1) f)
 
-/-- **C04_reuse**: the reuse clause holds (since the repair "ResetDefault resets every member";
-    before it, `C04_asFound_reuse_stale` below). -/
+/-- **C04_reuse**: the reuse clause holds (since the repairs "ResetDefault resets every member" and
+    "… also the elements of arrays of structs"; before them, `C04_asFound_reuse_stale` below). -/
 theorem C04_reuse : C04_reuse_full := by
   intro env S fs ovs vs r r' i f o hS h hf ho hopt hty hd habs
+  have hrm := resetMember_nonstruct env (decFuel env r - 1) f o hty
+  have := decStruct_absent_opt env S fs ovs vs r r' hS h i f o hf ho hopt
+    (by rw [hrm]; exact targetOk_defaultOf env _ f hty hd) habs
+  rw [this, hrm, absentVal_plain env _ _ _ hty]
+
+/-- **C04_reuse_plain**: for a member that is not an array of structs: the explicit IDL default, or
+    the Go zero value of its type -/
+theorem C04_reuse_plain (env : Env) (S : String) (fs : List Field) (ovs vs : List Val)
+    (r r' : Reader) (i : Nat) (f : Field) (o : Val) (hS : env.find S = some fs)
+    (h : decStruct env S (.struct ovs) r = (.ok (.struct vs), r'))
+    (hf : fs[i]? = some f) (ho : ovs[i]? = some o) (hopt : f.req = false)
+    (hty : isStructTy f.ty = false) (harr : isArrStructTy f.ty = false)
+    (hd : ∀ d, f.dflt = some d → targetOk env f.ty d = true)
+    (habs : After f.tag (readerBefore env S (.struct ovs) r i).rest) :
+    vs[i]? = some (f.dflt.getD (zeroOf env f.ty)) := by
+  rw [C04_reuse env S fs ovs vs r r' i f o hS h hf ho hopt hty hd habs]
   cases hdf : f.dflt with
-  | some d =>
-    have hrm := resetMember_dflt env (decFuel env r - 1) f o d hdf
-    have := decStruct_absent_opt env S fs ovs vs r r' hS h i f o hf ho hopt
-      (by rw [hrm]; exact hd d hdf) habs
-    rw [this, hrm, absentVal_plain env _ _ _ hty]; rfl
-  | none =>
-    have hrm := resetMember_plain env (decFuel env r - 1) f o hdf hty
-    have := decStruct_absent_opt env S fs ovs vs r r' hS h i f o hf ho hopt
-      (by rw [hrm]; exact targetOk_zeroVal env _ _ hty) habs
-    rw [this, hrm, absentVal_plain env _ _ _ hty]; rfl
+  | some d => rw [defaultOf_dflt env _ f d hdf]; rfl
+  | none => rw [defaultOf_plain env _ f hdf harr]; rfl
 
 /-- **C04_absent_optional** (`ReadFrom` into a fresh target): the instance of `C04_reuse` for the Go
     zero value of the struct — the same result as for any reused target. -/
@@ -306,7 +347,7 @@ theorem C04_absent_optional (env : Env) (S : String) (fs : List Field) (vs : Lis
     (hf : fs[i]? = some f) (hopt : f.req = false) (hty : isStructTy f.ty = false)
     (hd : ∀ d, f.dflt = some d → targetOk env f.ty d = true)
     (habs : After f.tag (readerBefore env S (freshStruct env S) r i).rest) :
-    vs[i]? = some (f.dflt.getD (zeroOf env f.ty)) := by
+    vs[i]? = some (defaultOf env (decFuel env r - 1) f) := by
   rw [freshStruct_eq env S fs hS] at h habs
   have ho : (fs.map fun f => zeroVal env env.length f.ty)[i]? = some (zeroVal env env.length f.ty) := by
     simp [hf]
@@ -314,7 +355,8 @@ theorem C04_absent_optional (env : Env) (S : String) (fs : List Field) (vs : Lis
 
 /-- **C04_reuse_struct**: decoding into ANY target, an absent optional nested-struct member decodes
     to a struct in which every member with an explicit default holds that default and every other
-    non-struct member holds the Go zero value of its type, whatever the nested target held. -/
+    member that is neither a struct nor an array of structs holds the Go zero value of its type,
+    whatever the nested target held. -/
 theorem C04_reuse_struct (env : Env) (S : String) (fs : List Field) (ovs vs : List Val)
     (r r' : Reader) (i : Nat) (f : Field) (name : String) (inner : List Val) (ifs : List Field)
     (hS : env.find S = some fs)
@@ -324,7 +366,8 @@ theorem C04_reuse_struct (env : Env) (S : String) (fs : List Field) (ovs vs : Li
     (habs : After f.tag (readerBefore env S (.struct ovs) r i).rest) :
     ∃ res, vs[i]? = some (.struct res) ∧
       ∀ (j : Nat) (g : Field) (w : Val), ifs[j]? = some g → inner[j]? = some w →
-        isStructTy g.ty = false ∨ g.dflt.isSome → res[j]? = some (g.dflt.getD (zeroOf env g.ty)) := by
+        (isStructTy g.ty = false ∧ isArrStructTy g.ty = false) ∨ g.dflt.isSome →
+        res[j]? = some (g.dflt.getD (zeroOf env g.ty)) := by
   have hrm := resetMember_struct env (decFuel env r - 1) f name inner ifs hdf hty hfind
   have := decStruct_absent_opt env S fs ovs vs r r' hS h i f _ hf ho hopt
     (by rw [hrm, hty]; simp [targetOk, hfind]) habs
@@ -343,7 +386,7 @@ theorem C04_reuse_struct (env : Env) (S : String) (fs : List Field) (ovs vs : Li
     | some d => rw [resetMember_dflt env F g x d hgd]; rfl
     | none =>
       rcases hcase with hns | hsome
-      · rw [resetMember_plain env F g x hgd hns]; rfl
+      · rw [resetMember_nonstruct env F g x hns.1, defaultOf_plain env F g hgd hns.2]; rfl
       · rw [hgd] at hsome; cases hsome
   have h1 : (resetDefault env (decFuel env r - 1) ifs inner)[j]?
       = some (g.dflt.getD (zeroOf env g.ty)) := by
@@ -442,7 +485,7 @@ example : ∃ vs r', decStruct C04_cexEnv "S" C04_cexOld (Reader.mk0 C04_cexPkt)
   refine ⟨_, _, hdec, haft, ?_⟩
   have := C04_reuse C04_cexEnv "S" C04_cexFs [.int 1, .str C04_cexOldStr] _ _ _ 1
     ⟨1, false, .str, none⟩ (.str C04_cexOldStr) hfind hdec rfl rfl rfl rfl (fun d hd => by cases hd) haft
-  rw [this, hz2]; rfl
+  rw [this, defaultOf_plain _ _ _ rfl rfl, hz2]
 
 /-- **C04_asFound_reuse_stale** (defect D13, general form; about the as-found `ResetDefault` of
     Model/SchemaAsFound.lean only): decoding into a reused target, an absent optional member
